@@ -188,6 +188,25 @@ def fam_dunder(tier: str, rng: random.Random) -> Iterator[dict]:
         yield renamed(h, "f", "__call__")
 
 
+def fam_async_members(tier: str, rng: random.Random) -> Iterator[dict]:
+    """The member is an `async def` method: contracts are inherited, groups tried and invariants selected exactly as
+    for a plain method (the library has separate async twins of its wrappers)."""
+    import copy
+    pool = [h for h in fam_hier_small(tier, rng)]
+    pool += [h for h in fam_inv_lists(tier, rng)]
+    pool += [h for h in fam_hier(tier, rng) if all(m["kind"] == "fn" and not any(d["d"] == "foreign" for d in m["decos"])
+                                                   for c in h["cls"] for m in c["members"])]
+    if tier == "quick":
+        pool = rng.sample(pool, min(len(pool), 600))
+    for h in pool:
+        if any(m["kind"] != "fn" for c in h["cls"] for m in c["members"]):
+            continue
+        q = copy.deepcopy(h)
+        q["async_members"] = True
+        q["tag"] = q["tag"] + "-async"
+        yield q
+
+
 def fam_foreign_hier(tier: str, rng: random.Random) -> Iterator[dict]:
     """Overrides that carry foreign functools.wraps decorators above / between / below their contract decorators,
     in hierarchies (the merged contracts must land on the one real checker)."""
